@@ -111,6 +111,43 @@ Proof.
       rewrite E, (IH rest Hs D). reflexivity.
 Qed.
 
+(** #XX escaping of the repaired main writer (escape_pdf_name): every name of bytes < 256.
+    [iso_plain] bytes are exactly bytes at which neither reader stops and which are not '#'. *)
+Definition esc_iso_byte_ok (c : N) : bool :=
+  if iso_plain c then negb (is_nd c) && negb (c =? 35)
+  else negb (is_nd 35) &&
+       match hex2 (hexdig (c / 16)) (hexdig (c mod 16)) with Some v => v =? c | None => false end.
+Lemma esc_iso_byte_sweep : forall c, c < 256 -> esc_iso_byte_ok c = true.
+Proof. apply allb_spec. vm_compute. reflexivity. Qed.
+
+Lemma read_name_esc_iso : forall n rest, bytes_ok n = true -> delim_follows rest ->
+  read_name (esc_iso n ++ rest) = Some (n, rest).
+Proof.
+  induction n as [|c n IH]; intros rest H D.
+  - cbn [esc_iso app]. destruct rest as [|d r]; [reflexivity|]. cbn in D. cbn [read_name]. rewrite D. reflexivity.
+  - cbn [bytes_ok forallb] in H. apply andb_true_iff in H. destruct H as [Hb Hs].
+    unfold byte_ok in Hb. apply N.ltb_lt in Hb.
+    pose proof (esc_iso_byte_sweep c Hb) as K. unfold esc_iso_byte_ok in K.
+    cbn [esc_iso]. destruct (iso_plain c).
+    + apply andb_true_iff in K. destruct K as [K1 K2].
+      apply negb_true_iff in K1. apply negb_true_iff in K2.
+      cbn [app read_name]. rewrite K1, K2, (IH rest Hs D). reflexivity.
+    + apply andb_true_iff in K. destruct K as [_ K].
+      destruct (hex2 (hexdig (c / 16)) (hexdig (c mod 16))) as [v|] eqn:E; [|discriminate].
+      apply N.eqb_eq in K. subst v.
+      cbn [app read_name]. change (is_nd 35) with false. change (35 =? 35) with true. cbv iota.
+      rewrite E, (IH rest Hs D). reflexivity.
+Qed.
+
+(** the escaper changes nothing on the names the old writer could carry in 0x21..0x7E, and
+    is the identity exactly on [iso_plain] names *)
+Lemma esc_iso_plain : forall n, forallb iso_plain n = true -> esc_iso n = n.
+Proof.
+  induction n as [|c n IH]; intro H; [reflexivity|].
+  cbn [forallb] in H. apply andb_true_iff in H. destruct H as [Hc Hn].
+  cbn [esc_iso]. rewrite Hc, (IH Hn). reflexivity.
+Qed.
+
 (** ** decimal integers *)
 Lemma dval_app : forall l1 l2 a, dval a (l1 ++ l2) = dval (dval a l1) l2.
 Proof. intros. unfold dval. apply fold_left_app. Qed.
